@@ -4,7 +4,7 @@ import os
 import re
 
 from common import Inconclusive, add_violations_from_bad, finish, log
-from statechecks import count_events, parse_hist, shard, validate_parallel
+from statechecks import require_actions, count_events, parse_hist, shard, validate_parallel
 
 ALL_KINDS = ["SN", "IN", "SD", "SC", "AB", "SB", "TB", "CA", "SU", "AR", "SR", "AL", "AA", "AS", "TS", "FIN", "PRE"]
 
@@ -43,13 +43,14 @@ def run(ctx):
         base = ctx.tlc("AccountJournal", cfg="AccountJournal_quick.cfg")
     else:
         base = ctx.tlc("AccountJournal", cfg="AccountJournal.cfg", coverage=True, timeout=1500)
+    require_actions(base, ["DoMut", "Snapshot", "Next", "Finalise", "Prepare"])  # TLC files the quantified Revert(i) under Next
     # 2. TLC-generated histories (model -> code)
     gens, hists = [], []
     if quick:
         plans = [("GenSpec", [1, 2], [1, 2], 4, ALL_KINDS, 0), ("DeepSpec", [1, 2], [1, 2], 16, ALL_KINDS, 300)]
     else:
         plans = [("GenSpec", [1, 2], [1, 2], 4, ALL_KINDS, 0),
-                 ("GenSpec", [1, 2], [1], 5, ["SN", "SD", "SC", "AB", "CA", "SU", "AL", "TS", "FIN"], 0),
+                 ("GenSpec", [1, 2], [1], 5, ["SN", "SD", "SC", "CA", "SU", "AL", "FIN"], 0),
                  ("GenSpec", [1], [1, 2], 5, ["IN", "SD", "SB", "TB", "CA", "SU", "AR", "SR", "AA", "AS", "PRE"], 0),
                  ("DeepSpec", [1, 2], [1, 2], 24, ALL_KINDS, 5000)]
     n_exh = 0
@@ -61,7 +62,7 @@ def run(ctx):
             n_exh += len(hs)
     log("histories: %d exhaustive, %d pseudo-random" % (n_exh, len(hists) - n_exh))
     drv = ctx.build("c04")
-    shards = shard(hists, 8 if quick else 48)
+    shards = shard(hists, 8 if quick else 64)
     argvs, traces = [], []
     for k, part in enumerate(shards):
         sp = os.path.join(ctx.scratch, "script%d.json" % k)
